@@ -38,10 +38,10 @@ def check(ctx):
             return
         ctx.run_engine(exe, ['--name', name] + args + common + ['--deadline', str(deadline)], label=name, timeout=deadline + 400)
     if q:
-        leg('hold-le2', ['--leg', 'hold', '--nt', '1:2', '--maxp', '2', '--win', '0,0;1,1;2,1', '--jobs', '8'], 60)
-        leg('hold-3', ['--leg', 'hold', '--nt', '3:3', '--maxp', '2', '--win', '0,0', '--stride', '96', '--jobs', '8'], 60)
-        leg('order-le2', ['--leg', 'gate', '--nt', '1:2', '--maxp', '2', '--win', '0,0;1,1', '--jobs', '8'], 60)
-        leg('mt-3t', ['--leg', 'mt', '--threads', '3', '--oracle', '3', '--nt', '1:3', '--maxp', '2', '--win', '0,0', '--api', '3', '--spin', '1000', '--stride', '12', '--jobs', '6'], 60)
+        leg('hold-le2', ['--leg', 'hold', '--nt', '1:2', '--maxp', '2', '--win', '0,0;1,1;2,1', '--jobs', '8'], 150)
+        leg('hold-3', ['--leg', 'hold', '--nt', '3:3', '--maxp', '2', '--win', '0,0', '--stride', '96', '--jobs', '8'], 150)
+        leg('order-le2', ['--leg', 'gate', '--nt', '1:2', '--maxp', '2', '--win', '0,0;1,1', '--jobs', '8'], 150)
+        leg('mt-3t', ['--leg', 'mt', '--threads', '3', '--oracle', '3', '--nt', '1:3', '--maxp', '2', '--win', '0,0', '--api', '3', '--spin', '1000', '--stride', '12', '--jobs', '6'], 150)
     else:
         leg('hold-le2', ['--leg', 'hold', '--nt', '1:2', '--maxp', '3', '--alpha', 't', '--win', '0,0;1,1;2,1;4,2', '--nest', '1', '--jobs', '12'], 240)
         leg('hold-3', ['--leg', 'hold', '--nt', '3:3', '--maxp', '2', '--win', '0,0;1,1', '--stride', '3', '--jobs', '12'], 500)
